@@ -20,7 +20,7 @@ Lemma Quiet_store_input st i v cl :
   Quiet (upd_inputs (g_add_node (upd_data st (set_data (s_data st) i v)) (node_of i))
                     (add_item i (s_inputs st))).
 Proof.
-  intros ((HI & C & SO) & Hs & Hrs & Hok) Hnone El Ec.
+  intros ((HI & C & SO) & Hs & Hrs) Hnone El Ec.
   set (st' := upd_inputs (g_add_node (upd_data st (set_data (s_data st) i v)) (node_of i))
                          (add_item i (s_inputs st))).
   assert (Hnh : ~ has st i) by (unfold has; congruence).
@@ -46,7 +46,6 @@ Proof.
     - intros r _. reflexivity.
     - intros r Hr. exact Hr.
     - intros m Hm. now apply Hinp.
-    - exact Hok.
     - intros m Hm Hni Hpi _. destruct (lookup_data (s_data st) m) as [w|] eqn:Elm; [|now elim Hm].
       destruct (cv_reads _ C m w Elm Hni) as (f & ds & A & B).
       exists f, w, ds. split; [exact A|]. eapply Hsafe; eauto. }
@@ -81,8 +80,9 @@ Proof.
         destruct B as [B|B]; [left; now apply Hhas|now right].
     - exact (cv_refs _ C).
     - intros c Hc. simpl in Hc. apply in_add_node in Hc as [Hc|Hc]; [destruct i; discriminate|].
-      exact (cv_obj _ C c Hc). }
-  split; [|split; [exact Hs|split; [exact Hrs|exact Hok]]].
+      exact (cv_obj _ C c Hc).
+    - exact (cv_taint _ C). }
+  split; [|split; [exact Hs|exact Hrs]].
   split; [|split; [exact C'|intros x Hx; simpl in Hx; rewrite Hs in Hx; destruct Hx]].
   apply Inv_of_Cov; [|exact C'].
   intros m Hm. simpl in Hm. rewrite mem_item_add in Hm. simpl.
@@ -120,7 +120,7 @@ Proof.
   intros H R. unfold eval_top in H.
   destruct (lookup_cell (s_cells st) (fst i)) as [cl|]; [|inversion H; subst; exact R].
   destruct (if cl_cached cl then lookup_data (s_data st) i else None); [inversion H; subst; exact R|].
-  destruct (eval_formula fuel (upd_rolled (upd_err st None) []) cl i) as [rf stf] eqn:Ef.
+  destruct (eval_formula fuel (upd_taint (upd_rolled (upd_err st None) []) 0) cl i) as [rf stf] eqn:Ef.
   pose proof (proj1 (proj2 (proj2 (proj2 (reent_mono_all fuel)))) _ _ _ _ _ Ef R) as Rf.
   destruct rf; inversion H; subst; exact Rf.
 Qed.
